@@ -1,7 +1,7 @@
 #!/bin/bash
-# usage: seedverify.sh <PROP> <k>   e.g. C01 a -- verifies a sub-agent seed in a scratch worktree and stores it under /verif/seeded/<PROP>-<k>/
+# usage: seedverify.sh <PROP> <k> [srcroot] [destk]  e.g. C01 a -- verifies a sub-agent seed in a scratch worktree and stores it under /verif/seeded/<PROP>-<destk>/
 set -u
-P=$1; K=$2; SRC=/tmp/seedout/$P/$K
+P=$1; K=$2; ROOT=${3:-/tmp/seedout}; DK=${4:-$K}; SRC=$ROOT/$P/$K
 [ -f $SRC/patch.diff ] || { echo "$P-$K: no patch"; exit 2; }
 PATCHF=$SRC/patch.diff; [ -f $SRC/patch.ported.diff ] && PATCHF=$SRC/patch.ported.diff
 WT=$(mktemp -d /tmp/seedwt.XXXXXX); rmdir $WT
@@ -11,18 +11,18 @@ cd $WT
 DEMO=$(ls $SRC/*_test.go | head -1)
 DPATH=$(cat $SRC/demo_path.txt | tr -d '\n\r ')
 DPKG=./$(dirname $DPATH)
-res() { echo "$P-$K: $1"; }
+res() { echo "$P-$DK: $1"; }
 # demo without patch
 cp $DEMO $WT/$DPATH
-go test -mod=mod -vet=off -count=1 $DPKG >/tmp/seedv.$P$K.clean.log 2>&1; CLEAN=$?
+go test -mod=mod -vet=off -count=1 $DPKG >/tmp/seedv.$P$DK.clean.log 2>&1; CLEAN=$?
 # apply patch
-if ! git apply $PATCHF 2>/tmp/seedv.$P$K.apply.log; then res "PATCH-DOES-NOT-APPLY"; exit 1; fi
-go build ./... >/tmp/seedv.$P$K.build.log 2>&1 || { res "DOES-NOT-BUILD"; exit 1; }
-go test -mod=mod -vet=off -count=1 $DPKG >/tmp/seedv.$P$K.demo.log 2>&1; WITH=$?
+if ! git apply $PATCHF 2>/tmp/seedv.$P$DK.apply.log; then res "PATCH-DOES-NOT-APPLY"; exit 1; fi
+go build ./... >/tmp/seedv.$P$DK.build.log 2>&1 || { res "DOES-NOT-BUILD"; exit 1; }
+go test -mod=mod -vet=off -count=1 $DPKG >/tmp/seedv.$P$DK.demo.log 2>&1; WITH=$?
 rm $WT/$DPATH
-go test -mod=mod -vet=off -count=1 ./... >/tmp/seedv.$P$K.suite.log 2>&1; SUITE=$?
+go test -mod=mod -vet=off -count=1 ./... >/tmp/seedv.$P$DK.suite.log 2>&1; SUITE=$?
 if [ $CLEAN -eq 0 ] && [ $WITH -ne 0 ] && [ $SUITE -eq 0 ]; then
-  D=/verif/seeded/$P-$K; mkdir -p $D
+  D=/verif/seeded/$P-$DK; mkdir -p $D
   cp $PATCHF $D/patch.diff; cp $DEMO $D/; cp $SRC/demo_path.txt $D/; cp $SRC/notes.md $D/notes.md 2>/dev/null
   res "CONFIRMED (demo clean=pass, demo with patch=fail, suite with patch=pass)"
 else
